@@ -1,3 +1,5 @@
+                match violations iv with
+                | [] => "ok"
 import MtxVerif.Model.C10
 open MtxVerif MtxVerif.C10
 
@@ -204,8 +206,6 @@ def step (_ : Unit) (op impl : String) : Unit × DrvOut :=
           match validate v with
           | .error _ => ((), { model := "err", spec })
           | .ok v' =>
-            -- the proposed length check (`validateFixed`): a tree that rejects exactly the class
-            if impl == "err" && rangeArityClass v' then ((), { model := "err", spec }) else
             match implView with
             | some iv =>
               -- `ucustom` is an oracle about the users BEFORE Validate; it is not compared afterwards
